@@ -552,7 +552,7 @@ func Graph(t *rapid.T, o GraphOpts) GraphCase {
 		paths := map[string]any{}
 		if !o.NoPathItems {
 			for j, c := 0, rapid.IntRange(0, o.MaxElems-1).Draw(t, "npaths"); j < c; j++ {
-				name := "/" + []string{"p", "q/{id}", "r s", "t~u", "p/", "/p", "a/./b", "x/../p"}[Uniform(t, "pathname", 8)]
+				name := "/" + []string{"p", "q/{id}", "r s", "t~u", "p/", "/p", "a/./b", "x/../p", "a%41", "b%7Bid%7D"}[Uniform(t, "pathname", 10)]
 				if _, dup := paths[name]; dup {
 					continue
 				}
